@@ -139,6 +139,15 @@ def oracle_real(case, rec):
     if A is None or B is None:
         raise Discard('convergence error (limit decisions are discontinuous)')
     good = compare_prefix(rec, 'real', A, B / c, x, case, 'c=%r' % c)
+    # the single extraction as well (its first layer is well conditioned, or compare_prefix would have discarded)
+    a, fa = run_imf(emd, x, case, 'real')
+    b, fb = run_imf(emd, c * x, case, 'real')
+    if a is not None and b is not None:
+        dev = np.abs(a - b / c).max() / (np.abs(x).max() or 1.0)
+        if dev > 1e-6:
+            raise Violation('C02/real/get_next_imf/differs/' + case['opts']['stop_method'], 'c=%r rel dev %.3g' % (c, dev))
+        if fa != fb:
+            raise Violation('C02/real/get_next_imf/flag-differs', 'c=%r' % c)
     rec.cls('negative' if c < 0 else 'positive')
     return good >= 2 or not np.array_equal(A[:, 0], x)
 
